@@ -81,12 +81,8 @@ theorem read_hit_no_callback (cb : Cb) (fuel : Nat) (c : RCache) (a : FullAddr) 
     getBuf cb fuel c a = ⟨.ok i, touch c i, 0, 0⟩ := by
   cases fuel <;> (unfold getBuf; simp only [h, finish, hp, if_true])
 
-/-- The library's guard.  If the callback, asked for the page of `a`, first reads
-an object `e` that (in the state the cache has while the callback runs) is covered
-by the very slot that is being filled — i.e. the slot held a page before and `e`
-lies in the window of that size behind `a` — the nested read fails with NODATA
-without starting another callback, and so does the fetch: one callback, nesting 1. -/
-theorem read_self_fetch_detected (cb : Cb) (fuel : Nat) (c : RCache) (a e : FullAddr)
+/-- the guard, stated on the cache state the callback sees -/
+theorem read_self_fetch_detected_aux (cb : Cb) (fuel : Nat) (c : RCache) (a e : FullAddr)
     (hmiss : c.slots.findIdx? (·.covers a) = none)
     (hpre : cb.pre a = some e) (hcaps : capsHas cb.readCaps e.as = true)
     (hfind : (setSlot c (lru c) ⟨a, (slotAt c (lru c)).size, false⟩).slots.findIdx? (·.covers e) = some (lru c))
@@ -100,6 +96,39 @@ theorem read_self_fetch_detected (cb : Cb) (fuel : Nat) (c : RCache) (a e : Full
     cases fuel <;> (unfold getBuf; simp only [hfind, finish, hptr]; rfl)
   unfold getBuf
   simp [hmiss, hpre, hcaps, hin, failed]
+
+theorem findIdx_set {α} (p : α → Bool) (l : List α) (i : Nat) (x : α) (hi : i < l.length)
+    (hx : p x = true) (hn : ∀ y ∈ l, p y = false) : (l.set i x).findIdx? p = some i := by
+  induction l generalizing i with
+  | nil => simp at hi
+  | cons y ys ih =>
+    cases i with
+    | zero => simp [List.findIdx?_cons, hx]
+    | succ j =>
+      have hy : p y = false := hn y List.mem_cons_self
+      have := ih j (by simpa using hi) (fun z hz => hn z (List.mem_cons_of_mem _ hz))
+      simp [List.findIdx?_cons, hy, this]
+
+/-- The library's guard.  The callback, asked for the page of `a` (which no slot
+covers), first reads an object `e` that no slot covers either.  If the slot that is
+recycled for `a` held a page before and `e` lies in the window of that page's size
+behind `a` (same address space) — e.g. `e` is in the page of `a`, at or behind it —
+the nested read finds the slot in progress and fails with NODATA without starting
+another callback, and so does the fetch: one callback, nesting 1.  (For an empty
+slot the window is empty: that case ends at the nesting limit, see the `example`.) -/
+theorem read_self_fetch_detected (cb : Cb) (fuel : Nat) (c : RCache) (a e : FullAddr)
+    (hmiss : c.slots.findIdx? (·.covers a) = none)
+    (hpre : cb.pre a = some e) (hcaps : capsHas cb.readCaps e.as = true)
+    (hnone : ∀ s ∈ c.slots, s.covers e = false)
+    (hwin : (e.addr + W - a.addr) % W < (slotAt c (lru c)).size) (has : a.as = e.as)
+    (hlt : lru c < c.slots.length) :
+    (getBuf cb (fuel+1) c a).res = .error .nodata ∧ (getBuf cb (fuel+1) c a).calls = 1 ∧
+    (getBuf cb (fuel+1) c a).depth = 1 := by
+  apply read_self_fetch_detected_aux cb fuel c a e hmiss hpre hcaps _ hlt
+  unfold setSlot
+  apply findIdx_set _ _ _ _ hlt
+  · simp [Slot.covers, hwin, has]
+  · exact hnone
 
 /-! ## non-vacuity: the two situations of the defect report -/
 
@@ -120,8 +149,8 @@ example : ((read p2mCb warm ⟨0x10048, 0⟩).status, (read p2mCb warm ⟨0x1004
     = (.nodata, 1, 1) := by decide
 /-- the hypotheses of `read_self_fetch_detected` hold in that state -/
 example : warm.slots.findIdx? (·.covers ⟨0x10048, 0⟩) = none ∧ p2mCb.pre ⟨0x10048, 0⟩ = some ⟨0x10080, 0⟩ ∧
-    (setSlot warm (lru warm) ⟨⟨0x10048, 0⟩, (slotAt warm (lru warm)).size, false⟩).slots.findIdx? (·.covers ⟨0x10080, 0⟩)
-      = some (lru warm) := by decide
+    (∀ s ∈ warm.slots, s.covers ⟨0x10080, 0⟩ = false) ∧
+    (0x10080 + W - 0x10048) % W < (slotAt warm (lru warm)).size ∧ lru warm < warm.slots.length := by decide
 /-- Cold: the slot being filled has size 0 and matches nothing, every level starts another
 callback for the same page; the translation ends at the nesting limit, with a status. -/
 example : ((read p2mCb init ⟨0x10048, 0⟩).status, (read p2mCb init ⟨0x10048, 0⟩).calls, (read p2mCb init ⟨0x10048, 0⟩).depth)
